@@ -404,7 +404,7 @@ pub fn check(tier: Tier) -> i32 {
     cleanup_process_scratch();
     ctx.finish(
         "exploration",
-        "proptest-generated trees (hostile names, hard links, symlinks) x `group` with every transform I/O mode (pipe, $IN, $OUT, $IN+$OUT, --in-place with $IN) x --no-copy x helper programs that read all / part / none of their input, fail before or after reading, or never open $OUT (one helper rewrites the file it is given as $IN - only generated without --no-copy, where that file is fclones' private copy) x a failing mutating call below TMPDIR (ENOSPC / EIO on the k-th, k = 1..7, in a quarter of the cases) x TMPDIR unusable (below a regular file) or holding an additional scanned root named `fclones-data` that has been idle for years x --cache x -o outside the tree x -S/-L/-H x XDG_CACHE_HOME private / unset / empty / relative x working directory outside or inside the scanned tree; and all five dedupe operations with --dry-run, arbitrary options and -o. Oracle: (1) strict inventory equality before/after (paths, types, bytes, inode numbers, link counts, symlink targets, mtimes, modes); (2) the LD_PRELOAD trace of fclones and all its children contains no mutating libc call (open for write/create, write, rename, link, symlink, unlink, mkdir, mkfifo, truncate, utimes, chmod, clone ioctl) on a path below the scanned tree; (3) no fclones-* entry remains in the private TMPDIR. Non-trivial = a transform mode other than the plain pipe, or a dry run whose script is non-empty.",
+        "proptest-generated trees (hostile names, hard links, symlinks) x `group` with every transform I/O mode (pipe, $IN, $OUT, $IN+$OUT, --in-place with $IN) x --no-copy x helper programs that read all / part / none of their input, fail before or after reading, or never open $OUT (one helper rewrites the file it is given as $IN, another leaves a by-product `$IN.side` beside it - both only generated without --no-copy, where that file is fclones' private copy) x every second file read-only (0444) in 30 % of the cases x a failing mutating call below TMPDIR (ENOSPC / EIO on the k-th, k = 1..7, in a quarter of the cases) x TMPDIR unusable (below a regular file) or holding an additional scanned root named `fclones-data` that has been idle for years x --cache x -o outside the tree x -S/-L/-H x XDG_CACHE_HOME private / unset / empty / relative x working directory outside or inside the scanned tree; and all five dedupe operations with --dry-run, arbitrary options and -o. Oracle: (1) strict inventory equality before/after (paths, types, bytes, inode numbers, link counts, symlink targets, mtimes, modes); (2) the LD_PRELOAD trace of fclones and all its children contains no mutating libc call (open for write/create, write, rename, link, symlink, unlink, mkdir, mkfifo, truncate, utimes, chmod, clone ioctl) on a path below the scanned tree; (3) no fclones-* entry remains in the private TMPDIR. Non-trivial = a transform mode other than the plain pipe, or a dry run whose script is non-empty.",
         &["mutations are observed at libc level (the binary imports all file operations dynamically)", "only the scribbling helper writes to $IN, and only without --no-copy, so any change of a scanned file is fclones' own"],
     )
 }
